@@ -247,7 +247,7 @@ def kernel_guards(d: int, R: int, bi: int) -> bool:
     pre: 0 <= bi <= 3
     post: _
     """
-    b = [0.0, -1.5, 120.0, 0.001][bi]
+    b = H.pick([0.0, -1.5, 120.0, 0.001], bi)
     try:
         H._SEC_GUARDS(d, b, R)
     except ValueError:
